@@ -437,6 +437,9 @@ class SArr(real_np.ndarray):
                 t = c.concretize(e, what=f'index on axis {ax} at {site}')
             else:
                 t = builtins.int(t)
+                if (t < -n or t >= n) and not _called_from_repo():
+                    # library code (astropy, numpy) probing an array: ordinary Python semantics
+                    raise IndexError(f'index {t} is out of bounds for axis {ax} with size {n}')
                 if t < -n or t >= n:
                     _oob(c, f'index {t} out of bounds for axis {ax} of length {n}', None,
                          dict(site=_site(), axis=ax, length=n, array=self._name(), write=write, index=t))
@@ -579,6 +582,16 @@ def _site():
             return f'{fn.split("abacusnbody/")[-1]}:{f.f_code.co_name}:{f.f_lineno}'
         f = f.f_back
     return '?'
+
+
+def _called_from_repo():
+    """is the code indexing the array (the caller of __getitem__/__setitem__) part of /repo?
+    Only there does an out-of-range index mean an unchecked memory access (numba semantics)."""
+    import sys
+    f = sys._getframe(1)
+    while f is not None and f.f_code.co_filename.endswith(('symnb/arrays.py', 'symnb/npshim.py', 'symnb/core.py')):
+        f = f.f_back
+    return f is not None and '/abacusnbody/' in f.f_code.co_filename
 
 
 def wrap_like(out, like):
